@@ -81,6 +81,7 @@ BASES = {
 }
 
 VALUES = ['', 'x', '0', '-1', '1e300', 'nan', 'inf', '1e-300', '99', '1e29', '-1e29', '1e-29', '1_0', '1e', '0.5', '-9']
+PAIR_VALUES = [('0', '0'), ('0', '-1'), ('-1', '0'), ('-1', '-1')]
 # scalar options whose syntax is checked by the option parser itself
 ARGPARSE_TYPED = {'frequency', 'frequency_steps', 'frequency_increment', 'ff_power', 'ff_distance',
                   'nf_power', 'radial_count', 'radial_radius', 'excitation_voltage', 'load',
@@ -125,6 +126,23 @@ def sites():
                     t2[ti] = newtok
                     res['%s/%s#%d/%s' % (bname, g, ti, mname)] = dict(
                         base=bname, group=g, argv=build(g, t2))
+            # two degenerate fields of ONE option (0 / -1 in every pair of fields): validation rules that look at one
+            # field at a time miss combinations like "increment 0 with count -1"
+            for ti, tok in enumerate(toks):
+                if tok in ('-f', '-w', '-a', '--helix'):
+                    continue
+                pre, fields = split_token(tok)
+                for fi in range(len(fields)):
+                    for fj in range(fi + 1, len(fields)):
+                        for va, vb in PAIR_VALUES:
+                            if va == fields[fi] or vb == fields[fj]:
+                                continue
+                            f2 = list(fields)
+                            f2[fi], f2[fj] = va, vb
+                            t2 = list(toks)
+                            t2[ti] = pre + ','.join(f2)
+                            res['%s/%s#%d/%d&%d/%s&%s' % (bname, g, ti, fi, fj, va, vb)] = dict(
+                                base=bname, group=g, argv=build(g, t2))
             # the whole group given twice / omitted
             res['%s/%s/twice' % (bname, g)] = dict(base=bname, group=g, argv=build(g, toks + toks))
             res['%s/%s/omitted' % (bname, g)] = dict(base=bname, group=g, argv=build(g, []))
